@@ -45,6 +45,7 @@ PICO8_BUILTINS = {
 
     # Tables
     b'add', b'del', b'deli', b'count', b'all', b'foreach', b'pairs',
+    b'ipairs', b'next', b'inext',
 
     # Input
     b'btn', b'btnp',
@@ -80,6 +81,7 @@ PICO8_BUILTINS = {
     b'setmetatable', b'getmetatable',
     b'rawget', b'rawset', b'rawequal', b'rawlen',
     b'cocreate', b'coresume', b'costatus', b'yield',
+    b'pack', b'unpack', b'select',
 
     # Mentioned in manual but not fully documented
     b'assert', b'sgn',
